@@ -28,6 +28,14 @@ def INIT_UW(maxg):
             "ext2fs_initialize.4:%d" % (maxg + 1), "main.1:%d" % (maxg + 1), "test_root.0:4",
             "strcpy.0:24", "strcat.0:24", "strcat.1:24", "strlen.0:8"]
 
+def AT_UW(bpg, maxg):
+    nb = 1 + bpg * maxg
+    return ["main.%d:%d" % (i, nb + 1) for i in range(13)] + \
+           ["ref_marked_in_group.0:%d" % (nb + 1), "ext2fs_test_block_bitmap_range2.0:%d" % (nb + 1),
+            "ext2fs_mark_generic_bmap.0:%d" % (nb + 1), "ext2fs_mark_block_bitmap_range2.0:%d" % (nb + 1),
+            "ext2fs_get_free_blocks2.0:%d" % (nb + 2), "ext2fs_allocate_tables.0:%d" % (maxg + 1),
+            "ext2fs_allocate_group_table.0:5"]
+
 HARNESSES = [
     dict(name="reserve_sb", src="reserve_sb.c",
          extra_src=["lib/ext2fs/closefs.c", "lib/ext2fs/blknum.c"],
@@ -65,6 +73,21 @@ HARNESSES = [
                "count (below the blocks_per_group-retry threshold), features {sparse_super, sparse_super2 + num_backup_sb, meta_bg, "
                "flex_bg + log_groups_per_flex, resize_inode, gdt_csum}, explicit s_reserved_gdt_blocks, revision: symbolic; "
                "r_blocks_count 0, s_first_meta_bg 0, bigalloc off"),
+    dict(name="alloc_tables", src="alloc_tables.c", extra_src=["lib/ext2fs/alloc.c", "lib/ext2fs/blknum.c"],
+         funcs=["ext2fs_allocate_tables", "ext2fs_allocate_group_table", "flexbg_offset", "ext2fs_get_free_blocks2",
+                "ext2fs_bg_free_blocks_count_set", "ext2fs_free_blocks_count_add"],
+         configs=[{"FLEX": 1, "LGPF": 1, "BPG": 16, "MAXG": 3, "_unwindset": AT_UW(16, 3)}],
+         unwind=4, backends=["kissat", "default"],
+         bound="TBD"),
+    dict(name="itable_zero", src="itable_zero.c", extra_src=["lib/ext2fs/blknum.c"],
+         cut_statics={"misc/mke2fs.c": ["write_reserved_inodes"]},
+         funcs=["write_inode_tables", "ext2fs_inode_table_loc", "ext2fs_bg_itable_unused", "ext2fs_bg_flags_set"],
+         configs=[{"LOGBS": lb, "ISIZE": isz, "MAXG": 3} for lb, isz in ((0, 256), (2, 256), (1, 128))] +
+                 [{"LOGBS": lb, "ISIZE": isz, "MAXG": 3, "_tier": "thorough"} for lb, isz in ((0, 128), (1, 256), (2, 128))],
+         unwind=5, unwindset=["write_inode_tables.0:4"],
+         backends=["kissat", "default"],
+         bound="1..3 groups, inodes per group 8..64, block size 1k/2k/4k x inode size 128/256 (per query), table locations < 2^31 "
+               "(disjoint, possibly adjacent), bg_itable_unused / lazy_itable_init / itable_zeroed / gdt_csum symbolic"),
     dict(name="count_used", src="count_used.c", extra_src=BM_SRC,
          funcs=["ext2fs_count_used_blocks", "ext2fs_find_first_set_generic_bmap",
                 "ext2fs_find_first_zero_generic_bmap", "ba_find_first_set", "ba_find_first_zero"],
